@@ -212,7 +212,17 @@ func TestC04(t *testing.T) {
 			Filename: rapid.SampledFrom([]string{"", "f", "dir/file.x", "é.txt"}).Draw(t, "filename"),
 			Entry:    rapid.SampledFrom([]string{"string", "reader", "bytes"}).Draw(t, "entry"),
 		}
-		switch k := rapid.IntRange(0, 9).Draw(t, "kind"); {
+		switch k := rapid.IntRange(0, 10).Draw(t, "kind"); {
+		case k == 10:
+			c.Kind = "stateful"
+			rs, in := drawFixtureLexCase(t)
+			c.RS, c.Input = rs, in
+			if strings.ToValidUTF8(in, "�") != in {
+				c.InputHex = fmt.Sprintf("%x", in)
+			}
+			r.Count("realistic_example_lexer")
+			report(t, r, checkC04(c, r), c)
+			return
 		case k <= 3:
 			c.Kind = "stateful"
 			g := lexgen.GenRuleSet(t, lexgen.RuleOpts{NoLowerCase: rapid.Bool().Draw(t, "nolower")})
